@@ -37,7 +37,7 @@ NoCirc == [cells |-> <<>>, nets |-> <<>>, rows |-> <<>>]
 Idle == [active |-> FALSE, obj |-> "", stage |-> "", entry |-> NoCirc, ncb |-> 0, firstDet |-> NoCirc,
          hasDet |-> FALSE, lastDet |-> NoCirc, lastWl |-> 0, lastLB |-> NoCirc, lastUB |-> NoCirc, hasLB |-> FALSE, hasUB |-> FALSE,
          steps |-> <<>>, cb |-> FALSE, thrower |-> "none", inflight |-> 0, solves |-> 0, lastModel |-> -1, tried |-> FALSE]
-NoHist == [s \in {"global", "legalize", "detailed"} |-> [done |-> FALSE, ok |-> FALSE, entry |-> NoCirc, result |-> NoCirc]]
+NoHist == [s \in {"global", "legalize", "detailed"} |-> [done |-> FALSE, ok |-> FALSE, own |-> FALSE, entry |-> NoCirc, result |-> NoCirc]]
 
 F(p, why, sig) == [p |-> p, why |-> why, sig |-> sig]
 
@@ -148,10 +148,18 @@ RetFails(c) ==
      THEN {F("C06", <<"returned placement is not the blend">>, "blend")} ELSE {}) \cup
     \* determinism across objects (C08): same stage from the same entry circuit must give the same result
     UNION { IF hist[q][st].done /\ hist[q][st].ok /\ hist[q][st].entry = call.entry /\ Placement(hist[q][st].result) # Placement(c)
-            THEN {F("C08", <<"same input, different result", q, o>>, "nondeterministic")} ELSE {} : q \in ObjNames }
+            THEN {F("C08", <<"same input, different result", q, o>>, "nondeterministic")} ELSE {} : q \in ObjNames } \cup
+    \* ... and the same outcome: this call returned, an earlier call of the same stage on the same input failed by itself
+    UNION { IF hist[q][st].done /\ ~hist[q][st].ok /\ hist[q][st].own /\ hist[q][st].entry = call.entry
+            THEN {F("C08", <<"same input: one call returned, the other failed", q, o>>, "nondeterministic-outcome")} ELSE {} : q \in ObjNames }
 
 ThrowFails(c) ==
     LET st == call.stage o == call.obj IN
+    \* C08: the call failed by itself (the harness callback did not throw) although the same stage returned on the same input
+    (IF call.thrower = "none" /\ expect # "reject"
+     THEN UNION { IF hist[q][st].done /\ hist[q][st].ok /\ hist[q][st].entry = call.entry
+                  THEN {F("C08", <<"same input: one call returned, the other failed", q, o, Ev.what>>, "nondeterministic-outcome")} ELSE {} : q \in ObjNames }
+     ELSE {}) \cup
     IF ~IsFinite(c) \/ ~IsFinite(call.entry) THEN FiniteFails(c) ELSE
     ImplNote(c, FALSE) \cup FrameFails(c, st = "global") \cup
     \* C10 "refused ... and changes nothing": modifications were attempted (and refused) inside a callback that returned normally,
@@ -220,7 +228,7 @@ EndReturn == /\ Is("EndReturn") /\ call.active /\ Ev.obj = call.obj
                             (IF expect = "reject" THEN {F("C19", <<"a placement call accepted parameters the check must reject">>, "params-accepted")} ELSE {}) \cup
                             (IF scen \in {"proto", "invalid"} THEN {} ELSE GrammarFails(call.stage, call.steps, call.cb, params))
                 /\ objs' = [objs EXCEPT ![call.obj] = c]
-                /\ hist' = [hist EXCEPT ![call.obj][call.stage] = [done |-> TRUE, ok |-> TRUE, entry |-> call.entry, result |-> c]]
+                /\ hist' = [hist EXCEPT ![call.obj][call.stage] = [done |-> TRUE, ok |-> TRUE, own |-> FALSE, entry |-> call.entry, result |-> c]]
              /\ call' = Idle /\ expect' = ""
              /\ l' = l + 1 /\ UNCHANGED <<run, scen, params, base>>
 
@@ -228,7 +236,7 @@ EndThrow == /\ Is("EndThrow") /\ call.active /\ Ev.obj = call.obj
             /\ LET c == Ev.circ IN
                /\ fails' = ThrowFails(c)
                /\ objs' = [objs EXCEPT ![call.obj] = c]
-               /\ hist' = [hist EXCEPT ![call.obj][call.stage] = [done |-> TRUE, ok |-> FALSE, entry |-> call.entry, result |-> c]]
+               /\ hist' = [hist EXCEPT ![call.obj][call.stage] = [done |-> TRUE, ok |-> FALSE, own |-> (call.thrower = "none" /\ expect # "reject"), entry |-> call.entry, result |-> c]]
             /\ call' = Idle /\ expect' = ""
             /\ l' = l + 1 /\ UNCHANGED <<run, scen, params, base>>
 
